@@ -1,5 +1,6 @@
 import BigDec.Model.Serde
 import BigDec.Props.C04
+import BigDec.Proofs.JsonGrammar
 /-! # C17 — serde round trips
 
 `Serde.*` models the glue of src/impl_serde.rs: `Serialize` writes the `Display` text,
@@ -83,5 +84,18 @@ theorem C17_jsonnum_limit_iff (cfg : Config) (text : List Nat) (d : Dec) (hp : p
 theorem C17_jsonnum_reject (cfg : Config) (text : List Nat) (hp : parseDec text = none) :
     Serde.jsonNumDeserialize cfg text = none := by
   unfold Serde.jsonNumDeserialize; rw [hp]
+
+/-- **Partial** (full statement: `Serde.isJsonNumber (Serde.jsonNumText cfg npl d) = true` for every storable `d`,
+    i.e. also when `Display` picks the plain or the `E` notation - those two layouts are covered by the
+    correspondence only): the text the JSON-number adapter hands to `serde_json::Number` is inside the JSON
+    number grammar whenever `Display` chooses the dotless notation `<digits>e+<n>`, and for the zero of negative
+    scale that the adapter special-cases. -/
+theorem C17_json_grammar_dotless_partial (cfg : Config) (npl : Nat) (d : Dec)
+    (h : chooseNotation cfg d.int.natAbs d.scale none = .dotless ∨ (d.int = 0 ∧ d.scale < 0)) :
+    Serde.isJsonNumber (Serde.jsonNumText cfg npl d) = true :=
+  jsonNumText_grammar_dotless cfg npl d h
+
+/-- the premise is met: `-12e+20` under the default thresholds is printed dotless -/
+example : chooseNotation Generated.buildConfig (12 : Nat) (-20) none = .dotless := by decide
 
 end BigDec
